@@ -92,6 +92,16 @@ func runC18(c *Ctx, i int, r *rand.Rand) {
 				return
 			}
 			req.HTTPMethod = pick(r, []string{"POST", "PUT", "DELETE"})
+			if chance(r, 50) {
+				// the same with an application/* content-type: the connect=v1 query marker on a non-GET request is
+				// still unclassifiable (it must not be taken for a REST request, nor handed to the unknown handler)
+				req.GetViaQuery = true
+				req.Extra["Content-Type"] = []string{pick(r, []string{"application/json", "application/proto", "application/octet-stream"})}
+				if chance(r, 50) {
+					s.Cfg.Unknown = true
+					expectUnknown = 0
+				}
+			}
 		case "unknown-rpc-path", "unknown-rpc-path+handler":
 			if form == FREST {
 				req.RawTarget = "/v7/definitely/not/a/route"
